@@ -7,7 +7,9 @@ coq/theories/Sched.v (`allowed`), on the same scheduler contexts.  Shared by C02
 context = dict(tick, defs=[(id, app, [members])],
                view=[dict(id, cci, reps=[(rid, addr, tick, first)])],
                hosts=[dict(addr, region, tick, plog=[(s, r)], shards=[s])],
-               kill=[(s, r, addr)], ints=[..], u64s=[..], json=0|1, tag=str)
+               kill=[(s, r, addr)], ints=[..], u64s=[..], json=0|1, tag=str[, chain=1][, canon=1])
+chain=1: the round runs on the SAME Drummer/scheduler object as the previous context of the list (the real Drummer keeps one
+scheduler for its lifetime and calls updateSchedulerContext every round); the model judges every round by its own context only.
 Map keys always equal the id stored in the value (DB invariant, Sched.ctx_wf).
 observation = ('B', [request dict], ints_drawn, u64_drawn) | ('E', kind) | ('P',)
 request = dict(type(0 CREATE,1 DELETE,2 ADD,3 KILL), shard, members, ccid, rids, addrs, inst, raft, join, restore, app)
@@ -25,7 +27,7 @@ UNKNOWN_REGION = 999
 
 # ------------------------------------------------------------------ encoding
 def ctx_line(c):
-    t = ["C", c.get("json", 1), c["tick"], len(c["defs"])]
+    t = ["S" if c.get("chain") else "C", c.get("json", 1), c["tick"], len(c["defs"])]
     for (i, app, ms) in c["defs"]:
         t += [i, app, len(ms)] + list(ms)
     t.append(len(c["view"]))
@@ -327,7 +329,7 @@ def one_shard_ctx(ttl, step, kinds, spare, regpat, size, rng, sid_=1):
                 tag="one:%s/sp%d/rp%d/sz%s" % ("".join(kinds), spare, regpat, size))
 
 
-def gen_one_shard(ck, ttl, step, max_members, budget, kinds=None, prefer=None):
+def gen_one_shard(ck, ttl, step, max_members, budget, kinds=None, prefer=None, big_ids=0.0):
     """every multiset of member kinds (<= max_members) x spare pattern x region pattern x defined size in {m-1, m};
     if that exceeds the budget the 5-member part is sampled"""
     rng = ck.rng
@@ -356,11 +358,14 @@ def gen_one_shard(ck, ttl, step, max_members, budget, kinds=None, prefer=None):
     for (kinds, spare, regpat, size) in out:
         kk = list(kinds)
         rng.shuffle(kk)
-        ctxs.append(one_shard_ctx(ttl, step, tuple(kk), spare, regpat, size, rng))
+        c = one_shard_ctx(ttl, step, tuple(kk), spare, regpat, size, rng)
+        if big_ids and rng.random() < big_ids:
+            c = remap_ids(c, rng, rng.choice(STRIDES))
+        ctxs.append(c)
     return ctxs, full
 
 
-def gen_random_ctx(rng, ttl, step, nshards=None):
+def gen_random_ctx(rng, ttl, step, nshards=None, big_ids=0.0):
     T = 1000
     nsh = nshards or rng.randint(1, 4)
     nh = rng.randint(3, 8)
@@ -411,8 +416,131 @@ def gen_random_ctx(rng, ttl, step, nshards=None):
     hl = list(hosts.values())
     rng.shuffle(hl)
     rng.shuffle(view)
-    return dict(tick=T, defs=defs, view=view, hosts=hl, kill=kill, ints=[rng.randrange(0, 1 << 30) for _ in range(6)],
-                u64s=[5000 + rng.randrange(100000) for _ in range(4)], json=rng.choice([0, 1]), tag="rnd%d" % nsh, canon=1)
+    c = dict(tick=T, defs=defs, view=view, hosts=hl, kill=kill, ints=[rng.randrange(0, 1 << 30) for _ in range(6)],
+             u64s=[5000 + rng.randrange(100000) for _ in range(4)], json=rng.choice([0, 1]), tag="rnd%d" % nsh, canon=1)
+    if big_ids and rng.random() < big_ids:
+        c = remap_ids(c, rng, rng.choice(STRIDES))
+    return c
+
+
+STRIDES = [100000, 1 << 32, 1 << 16]
+
+
+def remap_ids(c, rng, stride):
+    """Same context with replica ids (and some shard ids) moved out of the small alphabet: id + stride * k.  Repair hands
+    out random 64 bit replica ids, so such ids are the normal case.  Persisted-log entries that named no member ("log of
+    another replica / another shard") are turned into entries CONGRUENT modulo the stride to a member living on that
+    NodeHost (same residue, different id): only a comparison of the full (shard, replica) pair tells them apart."""
+    sm, rm = {}, {}
+    for sh in c["view"]:
+        sm[sh["id"]] = sh["id"] + stride * rng.choice([0, 0, 1, 73])
+        for r in sh["reps"]:
+            rm[(sh["id"], r[0])] = r[0] + stride * rng.randint(1, 99)
+    at = {}
+    for sh in c["view"]:
+        for r in sh["reps"]:
+            at.setdefault(r[1], []).append((sh["id"], r[0]))
+    c2 = dict(c)
+    c2["view"] = [dict(id=sm[sh["id"]], cci=sh["cci"], reps=[(rm[(sh["id"], r[0])], r[1], r[2], r[3]) for r in sh["reps"]]) for sh in c["view"]]
+    c2["defs"] = [(sm.get(d[0], d[0]), d[1], list(d[2])) for d in c["defs"]]
+    hosts = []
+    for h in c["hosts"]:
+        plog = []
+        for (s0, r0) in h["plog"]:
+            if (s0, r0) in rm:
+                plog.append((sm[s0], rm[(s0, r0)]))
+            elif at.get(h["addr"]) and rng.random() < 0.75:
+                (ms, mr) = rng.choice(at[h["addr"]])
+                big_s, big_r = sm[ms], rm[(ms, mr)]
+                alts = [(big_s, big_r % stride), (big_s, big_r + stride * rng.randint(1, 5)), (big_s + stride * rng.randint(1, 5), big_r),
+                        (big_s % stride + stride * 7, big_r % stride)]
+                alts = [x for x in alts if x != (big_s, big_r) and x[0] > 0 and x[1] > 0]
+                plog.append(rng.choice(alts))
+            else:
+                plog.append((sm.get(s0, s0), r0))
+        hosts.append(dict(h, plog=plog, shards=sorted(set(sm.get(x, x) for x in h["shards"]))))
+    c2["hosts"] = hosts
+    c2["kill"] = [(sm.get(k[0], k[0]), k[1] + stride * rng.choice([0, 1, 7]), k[2]) for k in c["kill"]]
+    c2["tag"] = "%s/ids+%d" % (c.get("tag"), stride)
+    return c2
+
+
+def gen_sequence(rng, ttl, step, length=None, stride=0):
+    """2..4 related rounds for one shard on ONE scheduler object (chain=1): every round issues a restore or join CREATE, and
+    between the rounds the membership changes (member removed / added, version bumped) as it does after a DELETE / ADD."""
+    T = 1000
+    n = length or rng.randint(2, 4)
+    sid_ = rng.choice([1, 2, 3]) + stride * rng.choice([0, 1])
+    nxt = [1]
+
+    def new_rid():
+        r = nxt[0] + (stride * rng.randint(1, 99) if stride else 0)
+        nxt[0] += 1
+        return r
+    m = rng.randint(3, 5)
+    members = [(new_rid(), 11 + i) for i in range(m)]
+    next_addr = 11 + m
+    cci = rng.randint(1, 20)
+    other = None
+    if rng.random() < 0.3:     # a second shard whose membership stays as it is
+        oid = sid_ + 5
+        other = dict(id=oid, cci=3, reps=[(41, 31, T, 10), (42, 32, T, 10), (43, 33, T - ttl - step, 10)])
+    out = []
+    for k in range(n):
+        tick = T + k * 2 * step
+        creator = rng.randrange(len(members))
+        ckind = "W" if (k == 0 and rng.random() < 0.4) else "R"
+        extra_failed = rng.randrange(len(members)) if (len(members) >= 5 and rng.random() < 0.3) else None
+        reps, hosts = [], []
+        for i, (rid, addr) in enumerate(members):
+            h = dict(addr=addr, region=1 + addr % 2, tick=tick, plog=[(sid_, rid)], shards=[sid_])
+            if i == creator and ckind == "W":
+                reps.append((rid, addr, 0, tick - step))
+                h["plog"] = []
+            elif i == creator:
+                reps.append((rid, addr, tick - ttl - step, 10))
+            elif i == extra_failed:
+                reps.append((rid, addr, tick - 3 * ttl, 10))
+                h["plog"] = [(sid_, (rid % stride) if stride else rid + 50)] if rng.random() < 0.5 else []
+            else:
+                reps.append((rid, addr, tick - rng.choice([0, step, ttl]), 10))
+            hosts.append(h)
+        hosts.append(dict(addr=29, region=1, tick=tick, plog=[], shards=[]))
+        view = [dict(id=sid_, cci=cci, reps=reps)]
+        defs = [(sid_, 7, list(range(1, m + 1)))]
+        if other:
+            view.append(dict(other))
+            defs.append((other["id"], 8, [1, 2, 3]))
+            hosts += [dict(addr=31, region=1, tick=tick, plog=[(other["id"], 41)], shards=[other["id"]]),
+                      dict(addr=32, region=2, tick=tick, plog=[(other["id"], 42)], shards=[other["id"]]),
+                      dict(addr=33, region=1, tick=tick, plog=[(other["id"], 43)], shards=[other["id"]])]
+        rng.shuffle(hosts)
+        c = dict(tick=tick, defs=defs, view=view, hosts=hosts, kill=[], ints=[rng.randrange(0, 1 << 30) for _ in range(3)],
+                 u64s=[900000 + rng.randrange(1000)], json=rng.choice([0, 1]), tag="seq:round%d/%d:%s" % (k + 1, n, ckind))
+        if k > 0:
+            c["chain"] = 1
+        out.append(c)
+        # the membership changes before the next round
+        ch = rng.choice(["remove", "add", "replace", "replace"])
+        if ch in ("remove", "replace") and len(members) > 3:
+            members.pop(rng.randrange(len(members)))
+        elif ch in ("remove", "replace"):
+            members[rng.randrange(len(members))] = (new_rid(), next_addr)
+            next_addr += 1
+        if ch in ("add", "replace") and len(members) < 5:
+            members.append((new_rid(), next_addr))
+            next_addr += 1
+        rng.shuffle(members)
+        cci += rng.randint(1, 3)
+    return out
+
+
+def chain_prefix(ctxs, i):
+    """the contexts that ran on the same scheduler object before (and including) ctxs[i]"""
+    j = i
+    while j > 0 and ctxs[j].get("chain"):
+        j -= 1
+    return ctxs[j:i + 1]
 
 
 # ------------------------------------------------------------------ engine
@@ -550,6 +678,10 @@ def run_property(ck, eng, ctxs, monitor, proofs_ok, what):
                     name, det = bad[0]
                     r = replay_of(c, o, eng.ttl, eng.step)
                     r.update({"kind": "monitor:" + name, "all_failed_monitors": bad[:10]})
+                    if c.get("chain"):
+                        pre = chain_prefix(ctxs, i)
+                        r.update({"sequence": pre, "sequence_go_input_lines": [ctx_line(x) for x in pre],
+                                  "note": "rounds run in this order on ONE scheduler object; the last one is the failing round"})
                     ck.violation("%s: %s (context %s)" % (name, det, c.get("tag")), r)
         elif o[0] == "E":
             stats["errors"] += 1
@@ -599,6 +731,9 @@ def run_property(ck, eng, ctxs, monitor, proofs_ok, what):
         r = replay_of(ctxs[i], obs[i], eng.ttl, eng.step)
         r.update({"kind": "correspondence", "engine": "sched", "n_disagreements": len(unexplained), "coq_observed": obs_coq(obs[i]),
                   "theorems": ck.cov.get("theorems")})
+        if ctxs[i].get("chain"):
+            pre = chain_prefix(ctxs, i)
+            r.update({"sequence": pre, "sequence_go_input_lines": [ctx_line(x) for x in pre]})
         ck.violation("the scheduler's outcome is not in the model's allowed set for %d contexts but no property monitor failed; first: context %s, observed %s" % (
             len(unexplained), ctxs[i].get("tag"), obs_coq(obs[i])[:300]), r, found_input=False)
     return obs
